@@ -156,9 +156,27 @@ Definition step_instr (aux : nat) (s : pstate) (i : instr) : option pstate :=
     end
   end.
 
+(* finalize_correlated_error renames the chain bits c{i} to e{num_error_bits + i} with num_error_bits AT THE TIME OF THE
+   FINALIZE (when the next E starts, or at the end of the parse): channels drawn between a chain element and that point
+   take their e-bits first.  The interpreter reads a chain bit when it meets the OErr, so the builder adds to its offset the
+   number of error bits created between the OErr and the next OFinalize (right-to-left pass). *)
+Definition noisy_meas (p : Q) : bool := match Qcompare 0 p with Lt => true | _ => false end.
+Fixpoint fix_corr (ops : list (op nat)) : list (op nat) * Z :=
+  match ops with
+  | [] => ([], 0%Z)
+  | o :: r =>
+      let '(r', acc) := fix_corr r in
+      match o with
+      | OFinalize => (o :: r', 0%Z)
+      | OBumpErr k => (o :: r', (acc + k)%Z)
+      | OMeas _ p _ _ => (o :: r', if noisy_meas p then (acc + 1)%Z else acc)
+      | OErr c q rel true => (OErr c q (rel + acc)%Z true :: r', acc)
+      | _ => (o :: r', acc)
+      end
+  end.
 Definition build (aux : nat) (c : list instr) : option pstate :=
   match fold_left (fun acc i => match acc with Some st => step_instr aux st i | None => None end) c (Some (mkPS [] 0 [] [])) with
-  | Some st => Some (emit st [OFinalize])
+  | Some st => let st' := emit st [OFinalize] in Some (mkPS (fst (fix_corr (pops st'))) (pnmeas st') (pdets st') (pobs st'))
   | None => None
   end.
 
